@@ -788,6 +788,9 @@ impl Exec {
                     if *n >= 1000 {
                         self.counters.inc("probe_bulk_window");
                     }
+                    if *n == 0 {
+                        self.counters.inc("probe_empty_window");
+                    }
                     if ps.len() != *n as usize {
                         return Err(self.fail("C18", "window-shape".into(), format!("repair_packets({s},{n}) returned {} packets", ps.len())));
                     }
